@@ -327,3 +327,13 @@ Proof.
   simpl in H. apply andb_true_iff in H. destruct H as [H1 H2]. simpl. rewrite (IH _ _ H2).
   destruct t; auto. apply negb_true_iff in H1. rewrite H1. reflexivity.
 Qed.
+
+(* with the repair fx_cond the marks are dropped again: the lexer's answer is read as the plain token list *)
+Lemma unmark_mark : forall ts prev lay trail, lay_okb prev lay ts = true -> map unmark1 (mark lay trail ts) = ts.
+Proof.
+  induction ts as [|t r IH]; intros prev lay trail H; [reflexivity|].
+  apply lay_okb_cons in H. destruct H as (_ & _ & Htok & Hr).
+  rewrite mark_cons. simpl map. rewrite (IH _ _ _ Hr). f_equal.
+  destruct t as [w|w|c|raw]; simpl in Htok; try reflexivity; [|discriminate].
+  unfold emit. destruct (andb (nonempty (next_ws (tl lay) trail r)) (is_cond w)); reflexivity.
+Qed.
